@@ -36,6 +36,8 @@ def one(D, k, kf, M, stride, rdil, ldil, padding, flags, shape=None, B=2, cin=2,
 def from_req(req, **over):
     if req["scenario"] == "contract":
         return one(req["D"], req["k"], req["kf"], (3,) * req["D"], 1, req["rdil"], None, req["padding"], req["flags"], contract=True, **over)
+    if req.get("N"):
+        over = dict(over, shape=list(req["N"]))       # concrete small extents (toroidal image narrower than the filter's reach)
     return one(req["D"], req["k"], req["kf"], tuple(req["M"]), req["stride"], req["rdil"], req["ldil"], req["padding"], req["flags"], **over)
 
 
